@@ -1,6 +1,7 @@
 package harness
 
 import (
+	"context"
 	"errors"
 	"fmt"
 	"io"
@@ -19,6 +20,7 @@ type FragReader struct {
 	Frag   []int // fragment sizes, cycled; 0 = a zero-byte read with nil error
 	ErrAt  int   // offset at which Read returns Err (-1: never)
 	Err    error
+	Ctx    context.Context // optional: reads fail once the context is done (HTTP bodies)
 	pos    int
 	k      int
 	Reads  int
@@ -29,6 +31,9 @@ type FragReader struct {
 func (r *FragReader) Read(p []byte) (int, error) {
 	simrt.Yield(-8, "read")
 	r.Reads++
+	if r.Ctx != nil && r.Ctx.Err() != nil {
+		return 0, r.Ctx.Err()
+	}
 	if r.ErrAt >= 0 && r.pos >= r.ErrAt {
 		r.Failed = true
 		return 0, r.Err
@@ -97,4 +102,35 @@ func runDir() string {
 		panic(err)
 	}
 	return d
+}
+
+// fsPlan turns the file-fault specifications of a case into a simrt fault plan (nil if none).
+//
+//	fs-write-budget: on the N-th open of the file, writes succeed for At more bytes, then fail (short write, ENOSPC)
+//	fs-close-error:  the N-th close of a file opened for writing fails
+//	fs-read-budget:  on the N-th open, reads deliver At bytes, then fail (EIO)
+//	fs-open-error:   the N-th open fails
+func fsPlan(faults []FaultSpec) *simrt.FaultPlan {
+	var p *simrt.FaultPlan
+	for _, f := range faults {
+		var r *simrt.FileFault
+		switch f.Kind {
+		case "fs-write-budget":
+			r = &simrt.FileFault{Op: "write", Nth: f.N, After: f.At}
+		case "fs-close-error":
+			r = &simrt.FileFault{Op: "close", Nth: f.N}
+		case "fs-read-budget":
+			r = &simrt.FileFault{Op: "read", Nth: f.N, After: f.At}
+		case "fs-open-error":
+			r = &simrt.FileFault{Op: "open", Nth: f.N}
+		default:
+			continue
+		}
+		r.PathSuffix = f.Name
+		if p == nil {
+			p = &simrt.FaultPlan{}
+		}
+		p.Rules = append(p.Rules, r)
+	}
+	return p
 }
